@@ -46,7 +46,7 @@ fn v1_bases() -> Vec<Vec<u8>> {
 
 fn v1_cases() -> Vec<Vec<u8>> {
     let mut out: Vec<Vec<u8>> = Vec::new();
-    let alphabet: &[u8] = b" \r\n+-0159:.aPTU\x00\xc3\xa9\xff";
+    let alphabet: &[u8] = b" \r\n\t\x0b\x0c,;/%[]+-0125689:.aAfFgxPTU\x00\x7f\xc3\xa9\xff";
     for base in v1_bases() {
         out.push(base.clone());
         for k in 0..base.len() { out.push(base[..k].to_vec()); }                    // every prefix
